@@ -106,6 +106,42 @@ def only_null_duplicates_missing(model_errs, impl_errs):
     return True
 
 
+def label_sweep(rep, rng, n):
+    """column labels that are not ordinary strings (integers from numpy-built frames, 0 and '' in particular) matched
+    by a regex column: the lazy report must name exactly the violating cells, under the frame's own labels"""
+    import warnings
+    import numpy as np
+    import pandas as pd
+    import pandera as pa
+    for _ in range(n):
+        labels = rng.choice([[0, 1, 2], [0, 1], ["", "a"], [0, "a"], [1, 2], ["0", "x"], [0]])
+        m = rng.randint(1, 4)
+        data = [[rng.choice([-2, -1, 1, 2, 3]) for _ in labels] for _ in range(m)]
+        df = pd.DataFrame(np.array(data).reshape(m, len(labels)), columns=labels)
+        regex = rng.random() < 0.8
+        cols = {r".*": pa.Column(int, pa.Check.gt(0), regex=True)} if regex else \
+            {l: pa.Column(int, pa.Check.gt(0)) for l in labels}
+        case = {"mode": "labels", "labels": [repr(l) for l in labels], "data": data, "regex": regex}
+        want = sorted((repr(l), i, data[i][j]) for j, l in enumerate(labels) for i in range(m) if data[i][j] <= 0)
+        with warnings.catch_warnings():
+            warnings.simplefilter("ignore")
+            try:
+                pa.DataFrameSchema(cols).validate(df.copy(), lazy=True)
+                got = []
+            except pa.errors.SchemaErrors as e:
+                fc = e.failure_cases
+                got = sorted((repr(c), int(i), int(v)) for c, i, v in
+                             zip(fc["column"].tolist(), fc["index"].tolist(), fc["failure_case"].tolist()))
+            except Exception as e:  # noqa: BLE001
+                rep.count("labels:crash:" + type(e).__name__)
+                continue
+        rep.case(case, nontrivial=bool(want))
+        rep.evaluations += 1
+        rep.count("labels:" + ("regex" if regex else "named") + (":violations" if want else ":clean"))
+        if got != want:
+            rep.property_failure(case, f"the lazy report {got[:4]} differs from the violating cells {want[:4]}")
+
+
 def n_cases(tier):
     return 1200 if tier == "quick" else 30000
 
@@ -117,9 +153,13 @@ def run(tier, replay=None):
     rep.audit["modules"] = MODULES
     if replay:
         cases = [json.loads(open(replay).read())["case"]]
+        if cases[0].get("mode") == "labels":
+            label_sweep(rep, rng_for(PROP, "labels"), 120)
+            return rep.finish(rule="replay of the label sweep (deterministic under VERIF_SEED)")
     else:
         rng = rng_for(PROP)
         cases = corpus_cases(PROP) + [P.gen_case(rng, conform_bias=0.55) for _ in range(n_cases(tier))]
+        label_sweep(rep, rng_for(PROP, "labels"), 120 if tier == "quick" else 3000)
     impl = [impl_observe(c) for c in cases]
     ans = run_driver("C01", [dict(c, depth="schemaAndData") for c in cases])
     for c, o, a in zip(cases, impl, ans):
